@@ -1,6 +1,7 @@
 package main
 
 import (
+	"sort"
 	"fmt"
 	"time"
 	"go/ast"
@@ -225,8 +226,43 @@ func (w *World) verifyFunc(fn *ssa.Function) *FuncResult {
 	}
 	x.curReplay = &ReplayInfo{Fn: fn, Inputs: rin}
 	x.deadline = time.Now().Add(time.Duration(funcBudgetSec) * time.Second)
+	// vacuity guards: what is assumed at entry (preconditions, receiver / type invariants) must be
+	// satisfiable, and with a postcondition to prove some return must be reachable -- otherwise
+	// every obligation of the function would be discharged for no reason.
+	var vprops []string
+	if fc != nil {
+		seen := map[string]bool{}
+		add := func(cs []*Clause) {
+			for _, c := range cs {
+				for _, pr := range c.Props {
+					if !seen[pr] && pr != "FINDING" {
+						seen[pr] = true
+						vprops = append(vprops, pr)
+					}
+				}
+			}
+		}
+		add(fc.Requires)
+		add(fc.Ensures)
+		for _, cs := range fc.Loops {
+			add(cs)
+		}
+		for _, cs := range fc.LoopsByText {
+			add(cs)
+		}
+		sort.Strings(vprops)
+	}
+	assumedSomething := (fc != nil && len(fc.Requires) > 0) || len(invs) > 0
+	if assumedSomething && len(vprops) > 0 {
+		x.obls = append(x.obls, &Obl{Name: key + "#vacuity#entry-assumptions-are-consistent", Func: key, Kind: "vacuity", Label: "entry-assumptions-are-consistent",
+			Props: vprops, Assumes: st.pc.list(), Goal: False})
+	}
+	var retPCs []*Term
 	x.runBlock(st, fn.Blocks[0], nil, func(s2 *State, results []Value) {
 		res.Returns++
+		if len(retPCs) < 64 {
+			retPCs = append(retPCs, And(s2.pc.list()...))
+		}
 		ri := &ReplayInfo{Fn: fn, Inputs: rin}
 		for i, r := range results {
 			if t := x.term(r); t != nil {
@@ -279,6 +315,15 @@ func (w *World) verifyFunc(fn *ssa.Function) *FuncResult {
 			x.oblige(s2, "ensures", c.Label, c.Props, g, token.NoPos)
 		}
 	})
+	if len(retPCs) > 4 {
+		// the simplest path conditions are the easiest to find a model for
+		sort.SliceStable(retPCs, func(i, j int) bool { return len(retPCs[i].String()) < len(retPCs[j].String()) })
+		retPCs = retPCs[:4]
+	}
+	if fc != nil && len(fc.Ensures) > 0 && len(retPCs) > 0 && len(vprops) > 0 {
+		x.obls = append(x.obls, &Obl{Name: key + "#vacuity#some-return-is-reachable", Func: key, Kind: "vacuity", Label: "some-return-is-reachable",
+			Props: vprops, Goal: Not(Or(retPCs...))})
+	}
 	res.Obls = x.obls
 	res.Paths = x.paths + 1
 	res.Outside = x.outside
